@@ -61,17 +61,36 @@ Definition dce_check (pure : list N) (f g : fn) : bool := blocks_dce pure (remov
    parameters, its parameters are those of c0, its terminator is that of ck with every target t replaced by
    a block j' of `after` with m(j') = t and the same arguments. Blocks of `before` that are neither some m(j)
    nor inside a chain are simply gone (unreachable, or bypassed). The chain length is bounded by fuel. *)
-Definition map_target (bmap : list nat) (tg : target) (tf : target) : bool :=
+Definition direct_target (bmap : list nat) (tg : target) (tf : target) : bool :=
   match nth_error bmap (fst tg) with
   | Some b => Nat.eqb b (fst tf) && list_eqb op_eqb (snd tg) (snd tf)
   | None => false
   end.
 
-Definition map_term (bmap : list nat) (tg tf : term) : bool :=
+(* a target of `after` stands for the target tf of `before` either directly, or because tf is an empty
+   forwarding block (no parameters, no instructions, `br t2(args)`) that has been bypassed
+   (simplify-cfg's unlink_empty_blocks); fuel bounds the number of bypassed blocks *)
+Fixpoint map_target_fuel (fuel : nat) (f : fn) (bmap : list nat) (tg : target) (tf : target) : bool :=
+  direct_target bmap tg tf ||
+  match fuel with
+  | O => false
+  | S k =>
+    match snd tf, nth_error f (fst tf) with
+    | [], Some blk =>
+      match b_params blk, b_body blk, b_term blk with
+      | [], [], TBr t2 => map_target_fuel k f bmap tg t2
+      | _, _, _ => false
+      end
+    | _, _ => false
+    end
+  end.
+
+Definition map_term (f : fn) (bmap : list nat) (tg tf : term) : bool :=
+  let map_target := map_target_fuel (length f) f bmap in
   match tg, tf with
   | TRet l o, TRet l' o' => (l =? l') && op_eqb o o'
-  | TBr t, TBr t' => map_target bmap t t'
-  | TCbr c t1 t2, TCbr c' t1' t2' => op_eqb c c' && map_target bmap t1 t1' && map_target bmap t2 t2'
+  | TBr t, TBr t' => map_target t t'
+  | TCbr c t1 t2, TCbr c' t1' t2' => op_eqb c c' && map_target t1 t1' && map_target t2 t2'
   | THalt l os, THalt l' os' => (l =? l') && list_eqb op_eqb os os'
   | _, _ => false
   end.
@@ -88,7 +107,7 @@ Fixpoint chain_ok (fuel : nat) (f : fn) (bmap : list nat) (b : nat) (body : list
       list_eqb instr_eqb (firstn n body) (b_body blk) &&
       (if Nat.leb n (length body) then
          (* either the chain ends here ... *)
-         ((Nat.eqb n (length body)) && map_term bmap tg (b_term blk))
+         ((Nat.eqb n (length body)) && map_term f bmap tg (b_term blk))
          (* ... or it goes on through an argument-less branch to a parameter-less block *)
          || match b_term blk with
             | TBr (b', []) =>
